@@ -86,6 +86,10 @@ RULE = (
     'distinct by (configuration, operation sequence).'
 )
 ASSUMPTIONS = [
+    'family open_giveup (LE credit-based opens whose caller gives up through task.cancel() or an enclosing asyncio.wait_for): the '
+    'abandoned call may end any way it likes; once everything has settled neither side may list a channel that is not open, both '
+    'sides list the same number of channels, and after any number of abandoned opens (also more than the 64 dynamic CIDs) a fresh '
+    'open succeeds. Enhanced credit-based and classic opens are not abandoned by this family yet',
     'hang = task still pending after 1900 virtual seconds of quiescence (Bumble has no L2CAP signalling timeout)',
     'operations are only issued on links whose two ends are alive when the operation starts (a cut may be in flight); '
     'alive = the application has not been handed a disconnection event for its Connection yet - the event may already '
@@ -2112,6 +2116,125 @@ def rawcl_waiter_cases():
     return cases
 
 
+# ---------------------------------------------------------------------------
+# family 'open_giveup': opens of LE credit-based channels whose CALLER gives up (task.cancel() after some loop
+# iterations / ms, or an enclosing asyncio.wait_for), before, while or after the peer answers. Self-contained: two
+# Devices, one LE link, one served PSM. Judged after each abandoned open has settled: no channel that is not open stays
+# in either side's tables (an abandoned open is either never established, or open at both ends, or closed again at
+# both ends), and at the end a fresh open succeeds - also after more abandoned opens than there are dynamic CIDs.
+GIVEUP_PSM = 0x00B7
+
+
+def open_giveup_cases():
+    one = st.tuples(st.sampled_from(['cancel', 'cancel', 'wait_for']), st.integers(0, 8), st.sampled_from([0, 0, 1, 3, 20]))
+    return st.fixed_dictionaries({
+        'kind': st.just('open_giveup'),
+        'delays': st.sampled_from([[], [], [0, 1], [2], [0, 0, 5]]),
+        'opens': st.lists(one, min_size=1, max_size=6),
+        # the whole list again and again (more abandoned opens than the 64 dynamic LE CIDs)
+        'repeat': st.sampled_from([1, 1, 2, 14, 30, 70, 70]),
+        'initiator': st.sampled_from([0, 1]),
+    })
+
+
+def _coc_tables(device, handle):
+    m = device.l2cap_channel_manager
+    out = []
+    for cid, ch in list(m.channels.get(handle, {}).items()):
+        if isinstance(ch, l2cap.LeCreditBasedChannel):
+            out.append((cid, ch.state.name))
+    return out, [(cid, ch.state.name) for cid, ch in m.le_coc_channels.get(handle, {}).items()]
+
+
+def run_open_giveup_case(ctx, case) -> None:
+    plain = {k: ([list(x) for x in v] if k == 'opens' else (list(v) if isinstance(v, (list, tuple)) else v)) for k, v in case.items()}
+    loop = vloop.new_loop()
+    labels = {'open_giveup'}
+    failures = []
+
+    async def body():
+        w = world.World(2, delays=list(case.get('delays') or []) or None)
+        await w.power_on()
+        conn_c, conn_p = await w.connect_le(0, 1)
+        ini = int(case['initiator'])
+        dev_i, dev_a = w[ini].device, w[1 - ini].device
+        conn_i = conn_c if ini == 0 else conn_p
+        conn_a = conn_p if ini == 0 else conn_c
+        accepted = []
+        dev_a.create_l2cap_server(spec=l2cap.LeCreditBasedChannelSpec(psm=GIVEUP_PSM), handler=accepted.append)
+        spec = l2cap.LeCreditBasedChannelSpec(psm=GIVEUP_PSM)
+        n = 0
+        for _ in range(int(case['repeat'])):
+            for how, hops, ms in case['opens']:
+                n += 1
+
+                async def opener():
+                    if how == 'wait_for':
+                        return await asyncio.wait_for(conn_i.create_l2cap_channel(spec=spec), ms / 1000.0 + 1e-9)
+                    return await conn_i.create_l2cap_channel(spec=spec)
+
+                task = loop.create_task(opener())
+                if how == 'cancel':
+                    for _h in range(int(hops)):
+                        await asyncio.sleep(0)
+                    if ms:
+                        await asyncio.sleep(ms / 1000.0)
+                    task.cancel()
+                got = None
+                try:
+                    got = await task
+                    labels.add('open_giveup:answered_first')
+                except (asyncio.CancelledError, asyncio.TimeoutError, TimeoutError):
+                    labels.add('open_giveup:given_up')
+                except Exception as e:  # noqa: BLE001 - an error ending of the abandoned call itself is its own business
+                    labels.add(f'open_giveup:raised:{type(e).__name__}')
+                await asyncio.sleep(1.0)
+                if got is not None:  # the caller did get its channel: close it the ordinary way
+                    try:
+                        await asyncio.wait_for(got.disconnect(), 10.0)
+                    except Exception as e:  # noqa: BLE001
+                        failures.append((f'open_giveup/close_raises/{type(e).__name__}', f'closing channel {n} raised {e!r}'))
+                        return
+                    await asyncio.sleep(0.5)
+                for side, dev, conn in (('initiator', dev_i, conn_i), ('acceptor', dev_a, conn_a)):
+                    by_source, by_destination = _coc_tables(dev, conn.handle)
+                    left = [x for x in by_source if x[1] != 'CONNECTED'] + [x for x in by_destination if x[1] != 'CONNECTED']
+                    if left:
+                        failures.append((f'open_giveup/not_open_channel_listed/{side}',
+                                         f'after open {n} ({how}, {hops} iterations, {ms} ms) was given up and everything settled, the '
+                                         f'{side}\'s tables list {left}'))
+                        return
+                i_open = len(_coc_tables(dev_i, conn_i.handle)[0])
+                a_open = len(_coc_tables(dev_a, conn_a.handle)[0])
+                if i_open != a_open:
+                    failures.append(('open_giveup/tables_disagree',
+                                     f'after open {n} ({how}, {hops} iterations, {ms} ms) was given up and everything settled, the initiator '
+                                     f'lists {i_open} channel(s), the acceptor {a_open}'))
+                    return
+        if n > 64:
+            labels.add('open_giveup:more_than_64')
+        # identifiers of what was given up can be used again: a fresh open succeeds
+        try:
+            ch = await asyncio.wait_for(conn_i.create_l2cap_channel(spec=spec), 10.0)
+        except Exception as e:  # noqa: BLE001
+            failures.append((f'open_giveup/open_afterwards_fails/{type(e).__name__}',
+                             f'after {n} abandoned open(s) a new create_l2cap_channel() raised {e!r}'))
+            return
+        if ch.state.name != 'CONNECTED':
+            failures.append(('open_giveup/open_afterwards_fails/state', f'new channel is {ch.state.name}'))
+
+    try:
+        try:
+            loop.complete(body(), horizon=3000.0)
+        except (vloop.Stalled, vloop.HorizonExceeded, vloop.BudgetExceeded) as e:
+            failures.append((f'open_giveup/hang/{type(e).__name__}', f'the history did not finish ({type(e).__name__})'))
+    finally:
+        loop.shutdown()
+    for sig, what in failures[:1]:
+        ctx.fail(sig, what, plain)
+    ctx.case(('open_giveup', plain), True, labels, sample={'open_giveup': plain})
+
+
 def run(ctx) -> None:
     vloop.selftest()
     max_ops = ctx.pick(15, 40)
@@ -2132,6 +2255,9 @@ def run(ctx) -> None:
     for c in rawcl_waiter_cases():
         run_rawcl_case(ctx, c)
         ctx.label('family:rawcl_waiters')
+    ctx.hyp('open_giveup', lambda c: run_open_giveup_case(ctx, c), open_giveup_cases(), max_examples=ctx.n(60, 2400))
+    for label in ('open_giveup', 'open_giveup:given_up', 'open_giveup:more_than_64'):
+        ctx.floor(label, 5)
     ctx.hyp('world', lambda c: run_world_case(ctx, c), world_cases(max_ops), max_examples=ctx.n(1100, 36000))
     ctx.hyp('raw', lambda c: run_raw_case(ctx, c), raw_ops(max_ops), max_examples=ctx.n(450, 12000))
     ctx.hyp('rawcl', lambda c: run_rawcl_case(ctx, dict(c, kind='rawcl')), rawcl_ops(max_ops), max_examples=ctx.n(400, 10000))
@@ -2174,5 +2300,7 @@ def replay(ctx, case) -> None:
         run_raw_case(ctx, case)
     elif case['kind'] == 'rawcl':
         run_rawcl_case(ctx, case)
+    elif case['kind'] == 'open_giveup':
+        run_open_giveup_case(ctx, case)
     else:
         raise ValueError(case['kind'])
